@@ -20,7 +20,8 @@ from .. import gen_store, ser, ser_store
 
 PROP = "C14"
 THEOREMS = ["C14_build_closed", "C14_heal_closed", "C14_replace_closed", "C14_clone_disjoint",
-            "C14_source_untouched", "C14_in_place_frame", "C14_visibility_partial", "C14_preserved_partial"]
+            "C14_source_untouched", "C14_in_place_frame", "C14_visibility_partial", "C14_preserved_partial",
+            "C14_heal_terminates"]
 AXIOMS_OK = []
 RUN_MODULE = "Run.C14run Schema.StoreModel"
 AGREE = "agree_C14"
